@@ -81,6 +81,7 @@ ISOLATION = "fork"
 STEP_CAP = 3_000_000
 
 CONF_KEYS = ["c32.alpha", "c32.beta", "c32_gamma"]
+OBSERVED_CONF = CONF_KEYS + ["append_revisions_only"]
 CONF_VALUES = ["v1", "two words", "ünï", "a=b", "x,y", 'with "quote"', "#hash", "100%", "", "True"]
 TAG_NAMES = ["t1", "t2", "rel 1.0", "étiquette"]
 VERB_CLASSES = ["read", "idem", "semi", "stream", "mutate", "semivfs"]
@@ -98,6 +99,7 @@ OP_VERBS = {
 # operations that a caller can simply repeat on the same objects after a reported connection failure
 INPLACE_OPS = {"set_tag", "del_tag", "get_tags", "conf_set", "conf_get", "set_last", "set_parent", "get_parent", "pull", "push", "fetch", "lock", "info", "parent_map", "rev", "tree", "revno_of", "get_rev_id", "has_rev", "all_revs"}
 STORE_ERR_OPS = {"set_tag", "del_tag", "set_last", "set_parent", "conf_set", "pull", "push", "fetch"}
+MUTATING_OPS = {"put", "mkdir", "rename", "move", "delete", "rmdir", "copy", "put_na", "append", "open_write_stream", "stream_write", "stream_close", "symlink", "hardlink"}
 DEFERRED = ("conf", "parent", "stacked")
 # verb classes an operation is expected to use (only to aim resets; nothing is judged by it)
 OP_CLASSES = {
@@ -141,7 +143,7 @@ def generate(rng, tier):
     base = gen_chain(rng, mh, None, rng.randint(1, 4), "b")
     bids = [s["id"] for s in base]
     side = gen_chain(rng, mh, rng.choice(bids), rng.randint(0, 2), "x")
-    div = gen_chain(rng, mh, rng.choice(bids), rng.randint(0, 2), "d")
+    div = gen_chain(rng, mh, rng.choice(bids[:-1] or bids), rng.randint(1, 2), "d")  # a line that diverges from the initial tip
     ext = gen_chain(rng, mh, bids[-1], rng.randint(2, 6), "s", merge_from=[s["id"] for s in side])
     src = base + side + div + ext
     src_ids = [s["id"] for s in src]
@@ -177,9 +179,11 @@ def generate(rng, tier):
         "reopen": 1,
         "has_rev": 1,
         "all_revs": 1,
+        "append_only": 0.7,
+        "handoff": 2.2,
     }
     kinds = sorted(weights)
-    inner = [x for x in kinds if x not in ("lock", "stack", "reopen")]
+    inner = [x for x in kinds if x not in ("lock", "stack", "reopen", "handoff")]
     forced = []  # operation kinds of an outer lock span still to be generated
     nspans = rng.choice([0, 1, 1, 1, 2, 2])
     span_at = sorted(rng.sample(range(0, max(1, nops - 1)), min(nspans, max(1, nops - 1)))) if nspans else []
@@ -195,9 +199,16 @@ def generate(rng, tier):
                 body = rng.choice([["pull_new", "commit"], ["commit", "push_new", "tree"], ["commit", "fetch", "set_last", "commit"]])
             elif t < 0.67:
                 body = ["set_tag"] + rng.choice([["get_tags", "set_tag"], ["pull_new", "get_tags", "set_tag"], ["del_tag", "get_tags"], ["set_tag", "pull_new", "del_tag", "get_tags"]])
-            elif t < 0.75:
+            elif t < 0.72:
                 body = rng.sample(["conf_set", "conf_get", "set_parent", "get_parent", "conf_set"], rng.randint(2, 4))
-            elif t < 0.83 and [r for r in src_ids if r not in revs]:
+            elif t < 0.86:
+                # a pending config-stack write, then the first operation that falls back to the VFS branch
+                # (fresh objects: the RemoteBranch's VFS twin does not exist yet)
+                div = [r for r in src_ids if tip not in mh.ancestry(r) and r not in mh.ancestry(tip)]
+                follow = rng.choice([{"op": "pull", "rev": rng.choice(div), "overwrite": True, "_keep_tip": True}] * 3 + ["commit"]) if div else "commit"
+                body = [{"op": "append_only", "value": True}] + rng.choice([[], ["conf_set"]]) + [follow] + rng.choice([[], ["info"], ["commit"]])
+                ops.append({"op": "reopen"})
+            elif t < 0.93 and [r for r in src_ids if r not in revs]:
                 # ask about a revision that is not there yet (negative caches), make it arrive, ask again
                 rid = rng.choice([r for r in src_ids if r not in revs])
                 ask = [{"op": "parent_map", "keys": sorted({rid, tip})}, {"op": "has_rev", "rev": rid}, {"op": "rev", "rev": rid}, {"op": "revno_of", "rev": rid}]
@@ -215,7 +226,7 @@ def generate(rng, tier):
             ops.append(op)
             if op["op"] in ("pull", "push", "fetch"):
                 revs |= mh.ancestry(op["rev"])
-                if op["op"] != "fetch":
+                if op["op"] != "fetch" and not op.get("_keep_tip"):
                     tip = op["rev"]
             continue
         if forced:
@@ -265,6 +276,14 @@ def generate(rng, tier):
             ops.append({"op": "conf_set", "key": rng.choice(CONF_KEYS), "value": rng.choice(CONF_VALUES)})
         elif k == "conf_get":
             ops.append({"op": "conf_get", "key": rng.choice(CONF_KEYS)})
+        elif k == "append_only":
+            ops.append({"op": "append_only", "value": rng.random() < 0.6})
+        elif k == "handoff":
+            if locked:
+                continue
+            ops.append({"op": "handoff"})
+            # ... and the object goes on being used with ordinary locking
+            forced = [rng.choice(["set_tag", "conf_set", "set_last", "info", "commit", "pull"]) for _ in range(rng.randint(1, 3))] + forced
         elif k == "lock":
             if locked:
                 continue
@@ -570,6 +589,20 @@ class Side:
             return None
         if k == "get_tags":
             return b.tags.get_tag_dict()
+        if k == "append_only":
+            b.set_append_revisions_only(bool(op["value"]))
+            return None
+        if k == "handoff":
+            # lock token hand-off on a REUSED object: leave the lock in place, another party takes it over
+            # with the token and releases it for good; afterwards this object is used as before
+            tok = b.lock_write().token
+            b.leave_lock_in_place()
+            b.unlock()
+            other = Branch.open(self.access + "br")
+            other.lock_write(token=tok)
+            other.dont_leave_lock_in_place()
+            other.unlock()
+            return "handed-off"
         if k == "conf_set":
             b.get_config_stack().set(op["key"], op["value"])
             return None
@@ -661,7 +694,7 @@ def observe(side, names, mh, seen):
             d["tip"] = norm(b.last_revision_info())
             d["tags"] = norm(b.tags.get_tag_dict())
             st = b.get_config_stack()
-            d["conf"] = [[k, st.get(k)] for k in CONF_KEYS]
+            d["conf"] = [[k, norm(st.get(k))] for k in OBSERVED_CONF]
             p = b.get_parent()
             d["parent"] = p.replace(side.local, "<base>/") if p else p
             try:
@@ -737,6 +770,12 @@ def warm():
         except Exception:  # noqa: BLE001, S110 - import warming only; real runs judge
             pass
     world.reset_stores()
+    # every run is a forked child of this process: keep the collector from walking (and thereby
+    # copying) the warmed heap in each child
+    import gc
+
+    gc.collect()
+    gc.freeze()
 
 
 def execute(sim, plan):
@@ -774,6 +813,13 @@ def execute(sim, plan):
     mode = "faulty" if faulty else "clean"
     A.open()
     B.open()
+    nmut = [0]  # mutating store operations so far (all stores)
+
+    def count_mut(sim_, actor, phase, opname, path, extra):
+        if phase == "before" and opname in MUTATING_OPS:
+            nmut[0] += 1
+
+    sim.monitors.append(count_mut)
     obs_a = observe(A, names, mh, seen_a)
     obs_b = observe(B, names, mh, seen_b)
     d = obs_diff(obs_a, obs_b)
@@ -787,6 +833,7 @@ def execute(sim, plan):
             sim.fail("unreadable", ["unreadable", who, opk, mode], f"store {who} after {opk}: {o['unreadable']}")
 
     pulled_in_span = False  # a pull ran inside the outer lock span that is still open
+    pending_append_only = False
     src_tag_names = set(plan.get("src_tags") or {})
 
     def stale_tags_after_pull(opk, ra, rb, d):
@@ -808,15 +855,20 @@ def execute(sim, plan):
         opk = op["op"]
         if not A.depth:
             pulled_in_span = False  # no outer lock is open
+            pending_append_only = False
         elif opk == "pull":
             pulled_in_span = True
+        if opk == "append_only" and A.depth:
+            pending_append_only = bool(op["value"])  # set on the config stack, saved only when the outer lock is released
         if opk == "stack" and op["name"] not in names:
             names.append(op["name"])
         pre_a = obs_a
         if opk == "stack":
             pre_a = observe(A, names, mh, seen_a)
+        m0 = nmut[0]
         ra = A.run(op)
-        obs_a = observe(A, names, mh, seen_a)
+        if nmut[0] != m0 or opk == "stack":
+            obs_a = observe(A, names, mh, seen_a)  # (an operation without a mutating store operation leaves the observation valid)
         check_readable(obs_a, "A", opk)
         # -- the same on B, through the server, possibly with a reset -------------------
         watch.pending = next((r for r in plan.get("resets", []) if r["op"] == i), None)
@@ -831,7 +883,9 @@ def execute(sim, plan):
             watch.pending = None
             nerr0 = sim.faults_fired["err_before"]
             sim.arm([{"kind": "err_before", "at": spec["at"], "count": "mut", "err": spec["err"]}])
+        m0 = nmut[0]
         rb = B.run(op)
+        b_mutated = nmut[0] != m0 or opk == "stack"
         sim.disarm()
         watch.pending = None
         armed = watch.armed
@@ -839,7 +893,8 @@ def execute(sim, plan):
             armed = {"kind": "store_err", "cls": spec["err"], "verb": "server-disk", "stream": False, "encoder": None, "reset": {"done": True}}
         fired = bool(armed and armed["reset"].get("done"))
         ww.resets = [r for r in ww.resets if r.get("done")]
-        obs_b = observe(B, names, mh, seen_b)
+        if b_mutated:
+            obs_b = observe(B, names, mh, seen_b)
         sim.event("op", i, opk, "A", "failed:" + ra.name if isinstance(ra, Failed) else "ok", "B", "failed:" + rb.name if isinstance(rb, Failed) else "ok", ww.nreq - n0, "fired" if fired else "")
         sim.state_seen((opk, isinstance(ra, Failed), isinstance(rb, Failed), (armed["kind"], armed["cls"]) if fired else None, fmt))
         check_readable(obs_b, "B", opk)
@@ -853,6 +908,13 @@ def execute(sim, plan):
             sim.probe(f"reset_{armed['kind']}_{armed['cls']}")
             sim.probe("reset_fired")
             sim.probe(f"reset_at_{armed['verb']}")
+        if pending_append_only and opk in ("commit", "set_last", "push") and not a_ok and ra.name == "AppendRevisionsOnlyViolation" and (b_ok or fired):
+            sim.fail(
+                "pending_config_invisible_to_rpc",
+                ["pending_config_invisible_to_rpc", "append_revisions_only"],
+                f"op {i} {op}: inside one outer write lock set_append_revisions_only(True) is pending on the branch's config stack (saved at unlock); locally the tip change is refused "
+                f"({ra!r:.160}); through the server it goes through the Branch.set_last_revision_info RPC, whose handler reads the stored branch.conf and accepts it: B -> {rb!r:.160}, tip {obs_b['br']['tip']}",
+            )
         if watch.unsafe:
             sim.fail(
                 "resent_consumed_stream",
@@ -875,6 +937,13 @@ def execute(sim, plan):
                 must_hide = False  # the client retries once; two resets in a row (or a server-side disk error) it has to report
             else:
                 must_hide = armed["cls"] in ("read", "idem")
+        if fired and not must_hide and b_ok and opk in ("set_parent", "conf_set", "append_only"):
+            # branch.conf-backed values are saved inside unlock (client side at the outer unlock, server side at the end
+            # of the verb), whose errors breezy suppresses by design: the write may be lost although the call returned
+            # normally; the user repeats it
+            sim.probe("config_write_repeated_after_suppressed_save_error")
+            B.run(op)
+            obs_b = observe(B, names, mh, seen_b)
         strict_ok = a_ok == b_ok and (not a_ok or norm(ra) == norm(rb)) and not obs_diff(obs_a, obs_b, ignore=DEFERRED if A.depth else ())
         if fired and not must_hide and b_ok and not strict_ok:
             # the operation reported success although a request of it failed for good (errors of
@@ -911,38 +980,44 @@ def execute(sim, plan):
                 obs_b = observe(B, names, mh, seen_b)
                 check_readable(obs_b, "B", opk)
                 sim.event("inplace", opk, "failed:" + rb2.name if isinstance(rb2, Failed) else "ok")
+                leaked = isinstance(rb2, Failed) and rb2.name == "LockContention" and not A.depth
                 if a_ok and isinstance(rb2, Failed) and rb2.name == "TooManyConcurrentRequests" and recover == "inplace":
                     sim.fail(
                         "inplace_retry",
                         ["inplace_retry", "medium-unusable-after-failed-retransmission"],
                         f"op {i} {op}: failed on B with {rb!r} after reset {tag} (the client's one retransmission was reset too); every later call on the same medium - here the same operation repeated ({where}) - fails with {rb2!r:.300}: _SmartClientRequest._send/_call reset the medium only after the FIRST ConnectionResetError, the failed retransmission leaves medium._current_request set",
                     )
-                if a_ok and isinstance(rb2, Failed) and armed["kind"] == "eof_send" and not obs_diff(obs_a, obs_b, ignore=DEFERRED if A.depth else ()):
+                if leaked:
+                    # the first attempt died inside the lock acquisition after the server had granted the lock
+                    # ('semi' verbs): the lock is left behind; the documented recovery is break_lock (below)
+                    sim.probe("inplace_retry_hit_lock_left_by_failed_acquisition")
+                elif a_ok and isinstance(rb2, Failed) and armed["kind"] == "eof_send" and not obs_diff(obs_a, obs_b, ignore=DEFERRED if A.depth else ()):
                     sim.probe("inplace_retry_refused_but_first_attempt_had_been_applied")
                     continue
-                if a_ok and isinstance(rb2, Failed) and opk == "del_tag" and rb2.name == "NoSuchTag" and A.depth and op["name"] in dict(map(tuple, obs_b["br"]["tags"])):
-                    sim.fail(
-                        "optimistic_tags_cache",
-                        ["optimistic_tags_cache", "failed-delete_tag-cannot-be-repeated-inside-the-lock"],
-                        f"op {i} {op}: inside an outer write lock the tag write failed on B ({rb!r:.200}, {tag}) and nothing was stored, but RemoteBranch had put the new tag dict into its cache BEFORE sending it: the repeated delete_tag raises {rb2!r:.120} "
-                        f"(and in-lock reads no longer show the tag) while the server still has it: B={obs_b['br']['tags']!r:.200} A={obs_a['br']['tags']!r:.200}",
-                    )
-                if a_ok and isinstance(rb2, Failed):
-                    sim.fail(
-                        "inplace_retry",
-                        ["inplace_retry", opk, "failed-again", where] + tag,
-                        f"op {i} {op}: failed on B with {rb!r} after reset {tag}; the same call repeated on the same objects ({where}) failed again: {rb2!r:.500}; locally it succeeded ({ra!r:.200})",
-                    )
-                if a_ok and opk not in ("pull", "push", "fetch") and norm(rb2) != norm(ra):
-                    sim.fail("inplace_retry", ["inplace_retry", opk, "value", where] + tag, f"op {i} {op}: repeated after a reported failure ({where}) it returned {norm(rb2)!r:.500}, locally {norm(ra)!r:.500}")
-                d = obs_diff(obs_a, obs_b, ignore=DEFERRED if A.depth else ())
-                if d:
-                    sim.fail(
-                        "inplace_retry",
-                        ["inplace_retry", opk, ",".join(d), where] + tag,
-                        f"op {i} {op}: failed on B with {rb!r} after reset {tag}, then repeated on the same objects ({where}) -> {rb2!r:.200}; stores differ in {d}: A={[_pick(obs_a, x) for x in d]!r:.700} B={[_pick(obs_b, x) for x in d]!r:.700}; verbs {watch.op_verbs}",
-                    )
-                continue
+                if not leaked:
+                    if a_ok and isinstance(rb2, Failed) and opk == "del_tag" and rb2.name == "NoSuchTag" and A.depth and op["name"] in dict(map(tuple, obs_b["br"]["tags"])):
+                        sim.fail(
+                            "optimistic_tags_cache",
+                            ["optimistic_tags_cache", "failed-delete_tag-cannot-be-repeated-inside-the-lock"],
+                            f"op {i} {op}: inside an outer write lock the tag write failed on B ({rb!r:.200}, {tag}) and nothing was stored, but RemoteBranch had put the new tag dict into its cache BEFORE sending it: the repeated delete_tag raises {rb2!r:.120} "
+                            f"(and in-lock reads no longer show the tag) while the server still has it: B={obs_b['br']['tags']!r:.200} A={obs_a['br']['tags']!r:.200}",
+                        )
+                    if a_ok and isinstance(rb2, Failed):
+                        sim.fail(
+                            "inplace_retry",
+                            ["inplace_retry", opk, "failed-again", where] + tag,
+                            f"op {i} {op}: failed on B with {rb!r} after reset {tag}; the same call repeated on the same objects ({where}) failed again: {rb2!r:.500}; locally it succeeded ({ra!r:.200})",
+                        )
+                    if a_ok and opk not in ("pull", "push", "fetch") and norm(rb2) != norm(ra):
+                        sim.fail("inplace_retry", ["inplace_retry", opk, "value", where] + tag, f"op {i} {op}: repeated after a reported failure ({where}) it returned {norm(rb2)!r:.500}, locally {norm(ra)!r:.500}")
+                    d = obs_diff(obs_a, obs_b, ignore=DEFERRED if A.depth else ())
+                    if d:
+                        sim.fail(
+                            "inplace_retry",
+                            ["inplace_retry", opk, ",".join(d), where] + tag,
+                            f"op {i} {op}: failed on B with {rb!r} after reset {tag}, then repeated on the same objects ({where}) -> {rb2!r:.200}; stores differ in {d}: A={[_pick(obs_a, x) for x in d]!r:.700} B={[_pick(obs_b, x) for x in d]!r:.700}; verbs {watch.op_verbs}",
+                        )
+                    continue
             A_unlocked = A.depth
             while A.depth:
                 A.depth -= 1
@@ -1007,6 +1082,24 @@ def execute(sim, plan):
                 obs_b = observe(B, names, mh, seen_b)
                 check_readable(obs_b, "B", opk)
             d = obs_diff(obs_a, obs_b)
+            if d and opk == "unlock" and all(x.rpartition(".")[2] in DEFERRED for x in d):
+                # the save of pending branch.conf values happens in unlock, whose errors are suppressed by design:
+                # the values are lost; the user sets them again
+                sim.probe("config_save_lost_in_failed_unlock")
+                st = B.branch.get_config_stack()
+                for key, val in obs_a["br"]["conf"]:
+                    if dict(map(tuple, obs_b["br"]["conf"])).get(key) != val:
+                        if key == "append_revisions_only":
+                            B.branch.set_append_revisions_only(bool(val))
+                        elif val is None:
+                            st.remove(key)
+                        else:
+                            st.set(key, val)
+                if obs_a["br"]["parent"] != obs_b["br"]["parent"]:
+                    pa = obs_a["br"]["parent"]
+                    B.branch.set_parent(pa.replace("<base>/", B.access) if pa else None)
+                obs_b = observe(B, names, mh, seen_b)
+                d = obs_diff(obs_a, obs_b)
             if d:
                 sim.fail("recovery", ["recovery", opk] + tag + [",".join(d)], f"op {i} {opk}: after recovery B differs from A in {d}: A={[_pick(obs_a, x) for x in d]} B={[_pick(obs_b, x) for x in d]}")
             continue
